@@ -1,6 +1,7 @@
 import InfluxQL.Gen.SitesAst
 import InfluxQL.Model.GroupBy
 import InfluxQL.Lemmas.OpsChecked
+import InfluxQL.Lemmas.RewriteChecked
 import InfluxQL.Props.C19
 import InfluxQL.Props.C20
 /-!
@@ -199,6 +200,8 @@ def modelledSites : List Site := [
   ("Dimensions.Normalize", "index", "expr.Args[0]"),
   sConj0, sConjTail,
   sFieldsLessI, sFieldsLessJ, sFieldsSwapI, sFieldsSwapJ,
+  sRwDimension, sRwArg, sRwField, sRwDimensions, sRwNExpr, sRwFields, sRwLHS, sRwRHS, sRwSources,
+  sRwSelect, sRwStatements, sRwStatement, sRwCond,
   sColTime, sColSlot, sColArgs,
   sFieldExprArgs,
   ("SelectStatement.GroupByInterval", "index", "call.Args[0]"),
@@ -219,10 +222,10 @@ def modelledSites : List Site := [
   sReduceCallVals, sReduceCallArgs
 ]
 
-/-- The functions of ast.go / utils.go that have a checked model. -/
+/-- The functions of ast.go / utils.go that have a checked model (`Rewrite`: `Model/RewriteChecked.lean`). -/
 def modelledFunctions : List String := [
   "CloneExpr", "CreateContinuousQueryStatement.RequiredPrivileges", "Dimensions.Normalize",
-  "ExprsToConjunction", "Fields.Less", "Fields.Swap", "SelectStatement.ColumnNames",
+  "ExprsToConjunction", "Fields.Less", "Fields.Swap", "Rewrite", "SelectStatement.ColumnNames",
   "SelectStatement.FieldExprByName", "SelectStatement.GroupByInterval", "SelectStatement.GroupByOffset",
   "SelectStatement.RewriteFields", "SelectStatement.RewriteRegexConditions", "SelectStatement.RewriteTimeFields",
   "SelectStatement.TimeAscending", "TypeValuerEval.evalCallExprType", "ValuerEval.Eval",
@@ -238,14 +241,18 @@ breaks this obligation until the model has a primitive for it. -/
 theorem gen_modelled_sites :
     sitesAst.filter (fun s => modelledFunctions.contains s.1) = modelledSites := by decide
 
-/-- 55 of the 71 inventoried sites are covered by a checked primitive and a theorem. -/
-theorem gen_modelled_sites_count : modelledSites.length = 55 ∧ sitesAst.length = 71 := by decide
+/-- 68 of the 71 inventoried sites are covered by a checked primitive and a theorem. -/
+theorem gen_modelled_sites_count : modelledSites.length = 68 ∧ sitesAst.length = 71 := by decide
 
-/-- The remaining 16 sites (reviewed list only): `Rewrite` with a caller-supplied `Rewriter`
-(13 assertions) and the protobuf codec of `Sources` (3). -/
+/-- The 13 sites of `Rewrite` in the list are the sites the assertions of
+`Model/RewriteChecked.lean` carry. -/
+theorem gen_rewrite_sites :
+    sitesAst.filter (fun s => s.1 == "Rewrite") = Checked.rewriteSites := by decide
+
+/-- The remaining 3 sites: the protobuf codec of `Sources`. -/
 theorem gen_unmodelled_functions :
     ((sitesAst.filter (fun s => !modelledFunctions.contains s.1)).map (·.1)).eraseDups
-      = ["Rewrite", "Sources.MarshalBinary", "Sources.UnmarshalBinary"] := by
+      = ["Sources.MarshalBinary", "Sources.UnmarshalBinary"] := by
   decide
 
 /-! ## `ColumnNames`, `FieldExprByName`, `TimeAscending`, `ExprsToConjunction`, `RewriteTimeFields` -/
@@ -397,6 +404,130 @@ theorem rewriteFieldsCallHead_terminates (name : Str) (args : List Expr) :
   · rw [if_neg hc, Checked.idx_of_eq Checked.sRFArgs0 cargs (i := 0) (n := 0) (x := cargs[0]) rfl
       (List.getElem?_eq_getElem (by omega))]
     exact ⟨_, rfl⟩
+
+/-! ## `Rewrite` with a caller-supplied `Rewriter` (`Model/RewriteChecked.lean`)
+
+The 13 unchecked assertions of `Rewrite` store what the rewriter answered for a child into the
+field of the parent the child came from. They are safe exactly as far as the rewriter answers
+each node with a node of the interface kind of that field. -/
+
+open Checked in
+/-- **C13 (Rewrite).** If the rewriter answers every node with a node of the same interface kind
+(`KindPreserving`: an expression with any expression, `Fields` with `Fields`, a `*Field` with a
+`*Field`, `Dimensions` / `*Dimension` / `Sources` / `Statements` likewise, a SELECT with a SELECT,
+another statement with a statement, nil with nil), then `Rewrite` returns for every node — a
+query, a statement list, any statement, a subquery source, field and dimension lists and their
+elements, any expression, the nil node — and the result has the kind of the argument. SELECT
+statements without a condition included: the nil condition is handed to the rewriter as the nil
+node and its answer is only asserted when it is not nil. -/
+theorem rewrite_no_panic (rw : Node → Node) (h : KindPreserving rw) (node : Node) :
+    ∃ m, rewriteChecked rw node = .ok m ∧ m.kind = node.kind := rewriteChecked_kind h node
+
+open Checked in
+/-- The same under the weaker contract `Accepts rw`, which lists slot by slot what the assertions
+demand: `Statements`, `Statement`, `*SelectStatement` (for a SELECT), `Fields`, `*Field`,
+`Dimensions`, `*Dimension`, `Sources`, `Expr` for an expression, and nil or an expression for the
+nil node (the answer to a missing condition may be a new condition). Nothing is asked about
+`*Query`, `*SubQuery`, `*Measurement`, sort fields, targets. -/
+theorem rewrite_no_panic_of_accepts (rw : Node → Node) (h : Accepts rw) (node : Node) :
+    ∃ m, rewriteChecked rw node = .ok m := rewriteChecked_ok h node
+
+open Checked in
+/-- `KindPreserving` implies `Accepts`. -/
+theorem kindPreserving_accepts (rw : Node → Node) (h : KindPreserving rw) : Accepts rw := h.accepts
+
+open Checked in
+/-- **C13 (RewriteFunc with the identity).** `RewriteFunc(n, func(n Node) Node { return n })`
+returns `n`, for every node. -/
+theorem rewrite_identity (node : Node) : rewriteChecked idRewriter node = .ok node :=
+  rewriteChecked_id node
+
+open Checked in
+/-- **C13 (Rewrite with an expression rewriter).** A rewriter that replaces expressions by
+expressions (`fn : Expr → Expr`, total: it never answers nil) and leaves every other node alone
+is kind-preserving, so `Rewrite` with it returns for every node and every `fn`. -/
+theorem rewrite_exprRewriter_no_panic (fn : Expr → Expr) (node : Node) :
+    ∃ m, rewriteChecked (exprRewriter fn) node = .ok m ∧ m.kind = node.kind :=
+  rewriteChecked_kind (exprRewriter_kindPreserving fn) node
+
+open Checked in
+/-- **C13 (Rewrite, SELECT without a condition).** Spelled out for the case the guard
+`if cond := Rewrite(r, n.Condition); cond != nil` exists for: for every kind-preserving rewriter
+and every SELECT, with or without condition, the statement case returns a SELECT. -/
+theorem rewrite_select_no_panic (rw : Node → Node) (h : KindPreserving rw) (s : SelectStmt) :
+    ∃ s', rewriteChecked rw (.statement (.select s)) = .ok (.statement (.select s')) :=
+  rewriteSelect_ok h.accepts s
+
+open Checked in
+/-- What the guard is for: the unguarded form of the store, `x = Rewrite(r, x).(Expr)`, on a nil
+slot panics already with the identity rewriter (`nil.(Expr)` panics); the guarded form returns nil. -/
+theorem rewrite_nil_condition_guard :
+    (rewriteSlot idRewriter sRwCond none).isPanic = true ∧ rewriteCondition idRewriter none = .ok none := by
+  exact ⟨rfl, rfl⟩
+
+/-- A rewriter that breaks the contract at one kind: nodes of kind `k` are answered with a
+`*Target`, every other node with itself. -/
+def breakAt (k : Checked.Kind) : Checked.Node → Checked.Node :=
+  fun n => if n.kind = k then .target {} else n
+
+/-- A rewriter that deletes variable references by answering nil — legal for the callback of
+`RewriteExpr`, which checks for nil, but not for a `Rewriter`. -/
+def dropVarRefs : Checked.Node → Checked.Node :=
+  Checked.exprOptRewriter fun e => match e with
+    | .varRef .. => none
+    | e => some e
+
+private def emptySelect : SelectStmt := default
+private def selectWhere (c : Expr) : SelectStmt :=
+  .mk [] none [] [] (some c) [] 0 0 0 0 false .null .none none [] false false [] false
+private def refX : Expr := .varRef ['x'] .Unknown
+
+open Checked in
+/-- **The contract is needed, at every one of the 13 sites**: for each assertion of `Rewrite` there
+is a rewriter that is not kind-preserving and a node on which exactly that assertion panics. -/
+theorem rewrite_needs_contract :
+    ∀ s ∈ rewriteSites, ∃ (rw : Node → Node) (node : Node),
+      ¬ KindPreserving rw ∧ rewriteChecked rw node = .panic s.str := by
+  have hb : ∀ k, k ≠ Kind.target → ∀ n : Node, n.kind = k → ¬ KindPreserving (breakAt k) := by
+    intro k hk n hn hkp
+    have := hkp n
+    rw [breakAt, if_pos hn, hn] at this
+    exact hk this.symm
+  have hd : ¬ KindPreserving dropVarRefs := fun hkp => by
+    have := hkp (.expr refX)
+    cases this
+  intro s hs
+  simp only [rewriteSites, List.mem_cons, List.not_mem_nil, or_false] at hs
+  rcases hs with rfl | rfl | rfl | rfl | rfl | rfl | rfl | rfl | rfl | rfl | rfl | rfl | rfl
+  · exact ⟨breakAt .dimension, .dimensions [.integer 1], hb _ (by decide) (.dimension .nil) rfl, rfl⟩
+  · exact ⟨dropVarRefs, .expr (.call ['f'] [.integer 1, refX]), hd, rfl⟩
+  · exact ⟨breakAt .field, .fields [{ expr := .integer 1 }], hb _ (by decide) (.field default) rfl, rfl⟩
+  · exact ⟨breakAt .dimensions, .statement (.select emptySelect), hb _ (by decide) (.dimensions []) rfl, rfl⟩
+  · exact ⟨dropVarRefs, .field { expr := refX }, hd, rfl⟩
+  · exact ⟨breakAt .fields, .statement (.select emptySelect), hb _ (by decide) (.fields []) rfl, rfl⟩
+  · exact ⟨dropVarRefs, .expr (.binary .ADD refX (.integer 1)), hd, rfl⟩
+  · exact ⟨dropVarRefs, .expr (.binary .ADD (.integer 1) refX), hd, rfl⟩
+  · exact ⟨breakAt .sources, .statement (.select emptySelect), hb _ (by decide) (.sources []) rfl, rfl⟩
+  · exact ⟨breakAt .select, .source (.subquery emptySelect), hb _ (by decide)
+      (.statement (.select emptySelect)) rfl, rfl⟩
+  · exact ⟨breakAt .statements, .query [], hb _ (by decide) (.statements []) rfl, rfl⟩
+  · exact ⟨breakAt .statement, .statements [.showDatabases], hb _ (by decide) (.statement .showDatabases) rfl, rfl⟩
+  · exact ⟨breakAt .expr, .statement (.select (selectWhere (.boolean true))), hb _ (by decide) (.expr .nil) rfl, rfl⟩
+
+open Checked in
+/-- The nil node is part of the contract as well: a rewriter that answers the nil condition with
+something that is neither nil nor an expression panics on a SELECT without condition. -/
+theorem rewrite_needs_contract_nil :
+    rewriteChecked (breakAt .nil) (.statement (.select emptySelect)) = .panic sRwCond.str := rfl
+
+open Checked in
+/-- The demand is on what `Rewrite` returns for the child: whenever that is not an expression (for
+any rewriter whatever), the assertion in the parent panics. Stated for the child of a `*ParenExpr`. -/
+theorem rewrite_contract_necessary (rw : Node → Node) (e : Expr) (m : Node)
+    (h : rewriteChecked rw (.expr e) = .ok m) (hm : m.asExpr = none) :
+    rewriteChecked rw (.expr (.paren e)) = .panic sRwNExpr.str := by
+  simp only [rewriteChecked] at h ⊢
+  simp only [rewriteExpr, h, hm, Checked.ok_bind, assertT, Checked.panic_bind]
 
 /-! ## `Reduce`, `Eval` -/
 
